@@ -560,7 +560,8 @@ pub fn check_c14(prog: &NetProgram, res: &NetResult, info: &mut RunInfo) {
         info.violate(Violation::new("C14", "panic", format!("building or running the model panicked: {e}")));
         return;
     }
-    if res.ok.is_none() {
+    // a run that ends with "joined task not finished" errors is still a complete history
+    if res.ok.is_none() && !(res.started && !res.errors.is_empty() && res.errors.iter().all(|(k, _)| k == "join-not-finished")) {
         return;
     }
     let tr = &res.trace;
@@ -907,6 +908,11 @@ pub fn check_c16(prog: &NetProgram, res: &NetResult, info: &mut RunInfo) {
         let queued = 0;
         info.violate(Violation::new("C16", "body-leak", format!(
             "a value stored in message {uid:#x} was never dropped although the simulation is gone (token {tid})")).fact("queued", queued));
+        return;
+    }
+    if res.ledger.zst_created != res.ledger.zst_dropped {
+        info.violate(Violation::new("C16", if res.ledger.zst_dropped < res.ledger.zst_created { "body-leak" } else { "body-double-drop" }, format!(
+            "{} zero-sized body values with a destructor were created, {} destructor calls happened", res.ledger.zst_created, res.ledger.zst_dropped)));
         return;
     }
     // the size channels charge for is header + declared body length
